@@ -41,14 +41,10 @@
 Require Import LT.FieldSec LT.PolyQ LT.ExpPoly.
 Local Open Scope F_scope.
 
-Section ILT.
+Section Den.
 Variable K : fld.
-Add Field KFilt : (fth K).
-Variable j : K.
-Variable cj : K -> K.          (* conjugation as used by Root.is_conjugate_pair *)
-
+Variable j : K.                (* the imaginary unit: j*j = -1 where it matters *)
 Notation sig := (@sig K).
-Notation pft := (pfterm K).
 
 Definition osadd (a b : option sig) : option sig :=
   match a, b with Some x, Some y => Some (sadd x y) | _, _ => None end.
@@ -90,6 +86,18 @@ Fixpoint den (e : texp) : option sig :=
   | TAdd a b => osadd (den a) (den b)
   | TMul a b => match den a, den b with Some x, Some y => smul x y | _, _ => None end
   end.
+
+End Den.
+Arguments osadd {K}. Arguments smul {K}.
+Arguments TE {K}. Arguments TCos {K}. Arguments TSin {K}. Arguments TPF {K}. Arguments TDel {K}.
+Arguments TScale {K}. Arguments TAdd {K}. Arguments TMul {K}.
+
+Section ILT.
+Variable K : fld.
+Add Field KFilt : (fth K).
+Variable cj : K -> K.          (* conjugation as used by Root.is_conjugate_pair *)
+Notation sig := (@sig K).
+Notation pft := (pfterm K).
 
 (* ---- the loop of InverseLaplaceTransformer.ratfun ------------------------------- *)
 Definition entry := (option K * K * nat)%type.       (* R[m] (None once consumed), P[m], O[m] *)
@@ -621,12 +629,10 @@ Theorem undef_int_sound (y v : sig K) s : D y = v -> pole_free s y -> s <> 0 -> 
 Proof. intros <- Hp Hs. rewrite (L_D K s y Hp). field. exact Hs. Qed.
 End Undef.
 
-Arguments TE {K}. Arguments TCos {K}. Arguments TSin {K}. Arguments TPF {K}. Arguments TDel {K}.
-Arguments TScale {K}. Arguments TAdd {K}. Arguments TMul {K}.
 Arguments ITerm {K}. Arguments it_const {K}. Arguments it_delay {K}. Arguments it_C {K}. Arguments it_ts {K}.
 Arguments CTerm {K}. Arguments ct_term {K}. Arguments ct_B {K}. Arguments ct_A {K}.
 Arguments MRes {K}. Arguments m_c {K}. Arguments m_u {K}. Arguments m_cond {K}.
 Arguments TRes {K}. Arguments t_c {K}. Arguments t_u {K}. Arguments term_of_pair {K}. Arguments sum_terms {K}. Arguments make_opt {K}. Arguments make_model {K}.
 Arguments Branches {K}. Arguments b_simple {K}. Arguments b_repeated {K}. Arguments b_conj {K}. Arguments b_poly {K}.
-Arguments osadd {K}. Arguments smul {K}. Arguments wf_tsb {K}. Arguments keys_nodupb {K}. Arguments orders_posb {K}.
+Arguments wf_tsb {K}. Arguments keys_nodupb {K}. Arguments orders_posb {K}.
 Arguments pf_iv {K}. Arguments pf_fv {K}. Arguments cert_ok {K}. Arguments roundtrip_check {K}. Arguments roundtrip_list {K}.
